@@ -8,7 +8,7 @@ use crate::scenario::*;
 const WRAP: &str = "return redis.call(unpack(ARGV))";
 
 /// One data command on the shared key names (the same names are used in every database).
-fn data_cmd(r: &mut Rng, uniq: &mut u64, deterministic: bool) -> Vec<B> {
+pub fn data_cmd(r: &mut Rng, uniq: &mut u64, deterministic: bool) -> Vec<B> {
     *uniq += 1;
     let v = |u: u64| b(&format!("v{}@DB@", u));
     let m = |r: &mut Rng| b(&format!("m{}", r.below(6)));
